@@ -206,7 +206,20 @@ func addSubtree(t Tree, r *Route, next int, h Handler) (Leaf, error) {
 	}
 	t.setSubtrees(subtrees)
 
-	return addNextSegment(subtree, r, next+1, h)
+	leaf, err := addNextSegment(subtree, r, next+1, h)
+	if err != nil {
+		// Do not leave behind the subtree that was created for a route that is not
+		// added.
+		subtrees = t.getSubtrees()
+		for i := range subtrees {
+			if subtrees[i] == subtree {
+				t.setSubtrees(append(subtrees[:i:i], subtrees[i+1:]...))
+				break
+			}
+		}
+		return nil, err
+	}
+	return leaf, nil
 }
 
 // addNextSegment adds next segment of the route to the tree.
